@@ -353,11 +353,54 @@ def length_toggle_programs(rng):
                         if last and pos < len(writes):
                             progs.append((ctor, ops + [("len", None)]))
                             progs.append((ctor, ops + [("len", 3)]))
+            # the same payloads as ONE batch, and as batches of two (items within their own limits, the
+            # batch as a whole beyond 65535 bytes): a batch is its items written in order, nothing else
+            singles = []
+            for w in writes:
+                if w[0] == "wp":
+                    singles.append(w[1])
+                elif w[0] == "wps":
+                    singles.extend(w[1])
+            if len(singles) >= 2:
+                for first in (("len", 12), ("len", None)):
+                    progs.append((ctor, [first, ("wps", singles)]))
+                    progs.append((ctor, [first] + [("wp", p_) for p_ in singles]))
+                    progs.append((ctor, [first, ("wps", singles[:2])] + [("wp", p_) for p_ in singles[2:]]))
+                    progs.append((ctor, [first, ("wp", singles[0]), ("wps", singles[1:])]))
+                    progs.append((ctor, [first, ("wp", singles[0]), ("wps", singles[1:]), ("len", None)]))
             # override first supplied after the overshoot
             progs.append((ctor, writes + [("len", 77)]))
             progs.append((ctor, writes + [("len", 77), ("len", None)]))
             progs.append((ctor, [("len", None)] + writes))
     return progs
+
+
+def big_batch_groups(rng):
+    """Groups of programs that write the same payloads one at a time (first program) or in batches
+    of every shape, with totals beyond 65535 bytes under an explicit length (the only way such a
+    header can be built) and within it: "whether payloads are written one at a time or as a batch
+    has no effect on the output" - nor on whether there is one."""
+    groups = []
+    ctors = (("new", 0x21, 0x00), ("with", 0x21, 1, rand_addr(rng, "ipv4")))
+    item_sets = [
+        [("sl", bytes([0x41]) * 40000), ("sl", bytes([0x42]) * 40000)],
+        [("pr", 0xE0, bytes([0x43]) * 33000), ("pr", 0xE1, bytes([0x44]) * 33000)],
+        [("sl", bytes([0x45]) * 65535), ("u8", 7)],
+        [("sl", bytes([0x46]) * 30000), ("tv", 4, bytes([0x47]) * 30000), ("sec", bytes([0x48]) * 10000)],
+        [("sl", bytes([0x49]) * 65535), ("sl", bytes([0x4A]) * 20), ("u16", 9)],
+        [("sl", bytes([0x4B]) * 30000), ("sl", bytes([0x4C]) * 30000)],
+    ]
+    for ctor in ctors:
+        for items in item_sets:
+            for first in (("len", 12), ("len", None)):
+                g = [(ctor, [first] + [("wp", p_) for p_ in items])]
+                g.append((ctor, [first, ("wps", items)]))
+                g.append((ctor, [first, ("wp", items[0]), ("wps", items[1:])]))
+                g.append((ctor, [first, ("wps", items[:1]), ("wps", items[1:])]))
+                g.append((ctor, [first, ("wps", items[:-1]), ("wp", items[-1])]))
+                g.append((ctor, [first, ("res", 100)] + [("wpr", p_) for p_ in items]))
+                groups.append(g)
+    return groups
 
 
 def set_length_everywhere(rng, n):
